@@ -44,3 +44,7 @@ klass("ScopingRegionMixin", module="fparser.two.utils")
 
 # G1: items the reader will still deliver, next first
 ghost("view", "list[ref]")
+
+for _c in ("Label_Do_Stmt", "Label_Do_Stmt_2008", "End_Do", "End_Do_Stmt", "Continue_Stmt", "Else_If_Stmt", "Else_Stmt",
+           "End_If_Stmt", "Masked_Elsewhere_Stmt", "Elsewhere_Stmt", "End_Where_Stmt", "Include_Stmt", "Directive"):
+    klass(_c, bases=("Base",))
